@@ -62,6 +62,7 @@ def run(ctx, chk):
     r_wb = chk.rule("C01.R6", "CMP writes no destination; other productions write only their destination", floor=30)
     r_ab = chk.rule("C01.R7", "no abort site in the arithmetic helpers / actions can fail", floor=10)
     chk.rule("C01.R8", "byte and word helper of a mnemonic compute every flag from the same expression (no dropped operand)", floor=25)
+    chk.rule("C01.R10", "an immediate operand has the width of its destination (every operand bit comes from the same bit of the literal)", floor=6)
     chk.rule("C01.R9", "the zero test is made on the stored result (or on a wider value that cannot be a non-zero multiple of 2^width)", floor=8)
     sibling_rule(ctx, chk)
 
@@ -170,9 +171,9 @@ def run(ctx, chk):
     from units import address_overrides
     ov = address_overrides(G)
     ai = arch_index(P)
-    for nt, tabnts in (("binary_arithmetic", ("byte_binary_arithmetic", "word_binary_arithmetic")),
-                       ("unary_arithmetic", ("byte_unary_arithmetic", "word_unary_arithmetic"))):
-        for nt, k, p in G.instruction_productions(nt):
+    for nt_fam, tabnts in (("binary_arithmetic", ("byte_binary_arithmetic", "word_binary_arithmetic")),
+                           ("unary_arithmetic", ("byte_unary_arithmetic", "word_unary_arithmetic"))):
+        for nt, k, p in G.instruction_productions(nt_fam):
             label = G.prod_label(nt, k)
             syms = [s["name"] for s in p["symbols"]]
             tab = syms[0]
@@ -234,6 +235,25 @@ def run(ctx, chk):
                             else:
                                 chk.ok("C01.R6", unit, f"writes {written} only")
                     report_aborts(chk, "C01.R7", unit, [e for e in I.events if "__action" in e.fn], where)
+                    # R10: an immediate operand reaches the helper with all the bits of the destination width
+                    if nt_fam == "binary_arithmetic" and dr == dest_regs[0]:
+                        from domains import bits_all_deps
+                        for e in I.events:
+                            if e.kind == "call" and "__action" in e.fn and e.callee and len(e.args) == 3 and e.args[-1].kind == "int":
+                                src = e.args[-1]
+                                per_bit = [{b for a, b in bits_all_deps(src.bits[i:i + 1]) if str(a).startswith("num:")} for i in range(len(src.bits))]
+                                if not any(per_bit):
+                                    continue   # not an immediate form
+                                missing = [i for i in range(len(src.bits)) if i not in per_bit[i]]
+                                if not missing:
+                                    chk.ok("C01.R10", f"{label} [{m}]", f"immediate: each of the {len(src.bits)} operand bits comes from the same bit of the literal")
+                                else:
+                                    chk.violation("C01.R10", label, "immediate-narrower-than-destination",
+                                                  f"{label}: bits {missing[0]}..{missing[-1]} of the {len(src.bits)}-bit source operand do not depend on the same bits of the literal "
+                                                  f"(they repeat bit {sorted(per_bit[missing[0]])[:1]}): the immediate is read in a narrower type than the destination, so a "
+                                                  f"{len(src.bits)}-bit immediate above that range cannot be an operand of this form", where,
+                                                  witness=f"{m} with an immediate of 0x{(1 << (missing[0] + 1)) - 1 + (1 << missing[0]):X}")
+                                break
 
 
 from absint import Unsupported  # noqa: E402
